@@ -257,8 +257,10 @@ def exp_form_rule(F, R):
         R.ob('S3-exp', n, ok, detail, v.file)
 
 
-def normaliser_rule(F, R):
-    """TrendFlex / ReFlex: out = X / sqrt(Y) with Y = a·X² + b·prev, a > 0, b in [0,1): |out| <= 1/sqrt(a) by construction."""
+def normaliser_rule(F, R, constants=None):
+    """TrendFlex / ReFlex: out = X / sqrt(Y) with Y = a·X² + b·prev, a > 0, b in [0,1): |out| <= 1/sqrt(a) by construction.
+    With `constants` = (a, b) the two literals must be exactly those (C11: 0.04 / 0.96)."""
+    from .e_rolling import delivering_value
     views = view_by_name(F)
     for n in ('TrendFlex', 'ReFlex'):
         v = views.get(n)
@@ -284,12 +286,69 @@ def normaliser_rule(F, R):
                                     b = (l[1], r_[1])
                         if a is not None and b is not None and a > 0 and 0 <= b[0] < 1:
                             # the leaky register must be assigned exactly Y
-                            if m.up_fields.get(b[1]) is not None and any(y == Y for y in subterms(m.up_fields[b[1]])):
+                            if m.up_fields.get(b[1]) is not None and delivering_value(m, b[1]) == Y:
                                 ok = True
+                                if constants is not None:
+                                    okc = abs(a - constants[0]) < 1e-12 and abs(b[0] - constants[1]) < 1e-12
+                                    R.ob('K2-coef', '%s:normaliser' % n, okc, 'leaky mean square uses %.4g·X² + %.4g·previous' % (a, b[0]) if okc else
+                                         'leaky mean square uses %.4g / %.4g, the defining equation has %.4g / %.4g' % (a, b[0], constants[0], constants[1]), v.file)
                                 detail = 'out = X/sqrt(%.2f·X² + %.2f·%s): leak factor %.2f < 1 and |out| <= %.3g by construction' % (a, b[0], b[1], b[0], 1 / math.sqrt(a))
                             else:
-                                detail = 'the leaky mean-square register %s is not updated with the value used for normalisation' % b[1]
+                                detail = 'the leaky mean-square register %s is not assigned exactly the mean square used for normalisation on every delivered value (it takes %s)' % (
+                                    b[1], tstr(delivering_value(m, b[1]))[:80])
         R.ob('S2-normaliser', n, ok, detail, v.file)
+
+
+def laguerre_rsi_ladder(F, R, Ns):
+    """LaguerreRSI: the four stages form a ladder: L0' = (1−γ)·x + γ·L0[b]; for k = 1..3  Lk' = −γ·L(k−1)[a] + L(k−1)[b] + γ·Lk[b]
+    with the same two lag positions a, b in every stage (the stages are siblings: stage k+1 must be stage k with the buffers
+    renamed). The lag convention itself (which positions a and b are) is the crate's and is not judged."""
+    import re as _re
+    v = view_by_name(F).get('LaguerreRSI')
+    if v is None:
+        return
+    m = model(F, v)
+    bad = []
+    cnt = 0
+    for N in [N for N in Ns if N <= 32]:
+        sysl = extract(F, v, m, N)
+        if isinstance(sysl, str) or not sysl:
+            continue
+        g = 2.0 / (N + 1)
+        for sy in sysl:
+            rows = sy['rows']
+            stages = {}
+            for a, f in rows.items():
+                mt = _re.match(r'^b:(l(\d)s):(\d+)$', a)
+                if mt and not (len(f) == 1 and list(f.values()) == [1.0] and list(f)[0].startswith('b:' + mt.group(1) + ':')):
+                    stages[int(mt.group(2))] = f
+            if sorted(stages) != [0, 1, 2, 3]:
+                continue
+            cnt += 1
+            f0 = stages[0]
+            own = [a for a in f0 if a.startswith('b:l0s:')]
+            if not (abs(f0.get('u', 0.0) - (1 - g)) < 1e-9 and len(own) == 1 and abs(f0[own[0]] - g) < 1e-9 and len(f0) == 2):
+                bad.append('N=%d: stage 0 is %s, expected (1−γ)·x + γ·L0[prev]' % (N, {k: round(c, 4) for k, c in f0.items()}))
+                continue
+            for k in (1, 2, 3):
+                f = stages[k]
+                prev = {a: c for a, c in f.items() if a.startswith('b:l%ds:' % (k - 1))}
+                mine = {a: c for a, c in f.items() if a.startswith('b:l%ds:' % k)}
+                if len(prev) + len(mine) != len(f) or sorted(round(c, 9) for c in prev.values()) != sorted([round(-g, 9), 1.0]) or \
+                        [round(c, 9) for c in mine.values()] != [round(g, 9)]:
+                    bad.append('N=%d: stage %d is %s, expected −γ·L%d[a] + L%d[b] + γ·L%d[b]' % (N, k, {a: round(c, 4) for a, c in f.items()}, k - 1, k - 1, k))
+                    break
+                if k >= 2:
+                    ren = {}
+                    for a, c in stages[k - 1].items():
+                        a2 = a.replace('b:l%ds:' % (k - 1), 'b:l%ds:' % k) if a.startswith('b:l%ds:' % (k - 1)) else a.replace('b:l%ds:' % (k - 2), 'b:l%ds:' % (k - 1))
+                        ren[a2] = c
+                    if set(ren) != set(f) or any(abs(ren[a] - f[a]) > 1e-9 for a in f):
+                        bad.append('N=%d: stage %d (%s) is not stage %d with the buffers renamed (%s)' % (
+                            N, k, {a: round(c, 4) for a, c in f.items()}, k - 1, {a: round(c, 4) for a, c in ren.items()}))
+                        break
+    R.ob('K1-ladder', 'LaguerreRSI', not bad and cnt > 0, 'four-stage Laguerre ladder with γ = 2/(N+1), every stage the renamed copy of the one before (%d window lengths)' % cnt
+         if not bad and cnt > 0 else (bad[0] if bad else 'ladder rows not found'), v.file)
 
 
 def fisher_feedback(F, R):
@@ -564,8 +623,30 @@ def run_c11(F, R, tier):
                 if abs(r - (1 - 2.0 / (N + 1))) > 1e-3:
                     bad.append((N, r))
         R.ob('K3-poles', 'CyberCycle', not bad and cnt > 0, 'pole radius = 1 − alpha for %d window lengths' % cnt if not bad else 'pole radius differs from 1 − alpha: %s' % bad[:3], v.file)
+        # the individual coefficients of cycle_t = g·Δ²smooth + 2(1−α)·cycle_(t−1) − (1−α)²·cycle_(t−2), g = (1 − α/2)².
+        # g is read off the oldest tap of Δ²smooth (the value five steps back enters with weight g/6 in the paper's layout and
+        # in the crate's), so the rule does not depend on how the smoothing buffer is laid out.
+        bad = []
+        cnt = 0
+        for N in [N for N in Ns if 6 <= N <= 64]:
+            sysl = extract(F, v, m, N)
+            if isinstance(sysl, str) or not sysl:
+                continue
+            al = 2.0 / (N + 1)
+            for sy in sysl:
+                row = sy['rows'].get('b:out:%d' % (N - 1))
+                if row is None:
+                    continue
+                cnt += 1
+                got = (6.0 * row.get('b:vals:%d' % (N - 5), 0.0), row.get('b:out:%d' % (N - 1), 0.0), row.get('b:out:%d' % (N - 2), 0.0))
+                want = ((1 - al / 2) ** 2, 2 * (1 - al), -(1 - al) ** 2)
+                if any(abs(a - b) > 1e-9 for a, b in zip(got, want)):
+                    bad.append('N=%d: (g, c1, c2) = (%.6g, %.6g, %.6g), expected (%.6g, %.6g, %.6g)' % ((N,) + got + want))
+        R.ob('K2-coef', 'CyberCycle:recursion', not bad and cnt > 0,
+             'input gain (1 − α/2)² and feedback 2(1−α), −(1−α)² for %d window lengths' % cnt if not bad and cnt > 0 else (bad[0] if bad else 'new output row not found'), v.file)
+    laguerre_rsi_ladder(F, R, Ns)
     fisher_feedback(F, R)
-    normaliser_rule(F, R)
+    normaliser_rule(F, R, constants=(0.04, 0.96))
     # window min/max of the Fisher transform are rescanned extrema
     v = views.get('EhlersFisherTransform')
     if v is not None:
@@ -591,3 +672,161 @@ def run_c11(F, R, tier):
     R.floor('K2-coef', 2)
     R.decline('the non-linear tails (TrendFlex/ReFlex normalisation algebra beyond the self-normalised form, LaguerreRSI CU/CD bookkeeping and lag convention, Fisher normalisation order, PFE ratio), '
               'initial-state/warm-up behaviour, and CyberCycle\'s smoothing layout (the statement is silent) are not decided')
+
+
+# ----------------------------------------------------------------------------------------------
+# transient analysis from the constructor's initial state (linear forms over the individual inputs u0, u1, ..)
+
+
+def _ctor_args(m, ctor, ints, floats=()):
+    mms = [x for x in m.ctor_models if x['fn'].name == ctor]
+    if not mms:
+        return None
+    args = {}
+    iv = list(ints)
+    fv = list(floats)
+    for (pid, nm, ty) in mms[0]['fn'].param_ids():
+        if ty == 'usize' and iv:
+            args[nm] = iv.pop(0)
+        elif ty == 'T' and fv:
+            args[nm] = const_form(fv.pop(0))
+    return args
+
+
+def _coef(f, k):
+    return f.get('u%d' % k, 0.0)
+
+
+def ema_transient(F, R, tier):
+    """Ema from its very first value: e_0 = x_0, e_t = w x_t + (1-w) e_(t-1), nothing reported before the N-th value,
+    then exactly e_t: compared coefficient by coefficient with the forms obtained by abstract execution from new()."""
+    from .lti import transient
+    v = view_by_name(F).get('Ema')
+    if v is None:
+        R.violation('B2-ema', 'Ema:transient', 'not found')
+        return
+    m = model(F, v)
+    bad = []
+    cnt = 0
+    Ns = range(1, 13) if tier == 'quick' else range(1, 41)
+    for ctor, alphas in (('new', [None]), ('with_alpha', [0.5, 1.0, 2.0])):
+        for alpha in alphas:
+            for N in Ns:
+                if alpha is not None and alpha > N + 1:
+                    continue
+                args = _ctor_args(m, ctor, [N], [] if alpha is None else [alpha])
+                if args is None:
+                    continue
+                K = N + 10
+                outs, probs = transient(m, ctor, args, K)
+                if outs is None:
+                    continue
+                w = (2.0 if alpha is None else alpha) / (N + 1)
+                ref = []
+                e = {}
+                for k in range(K):
+                    if k == 0:
+                        e = {0: 1.0}
+                    else:
+                        e = {j: c * (1 - w) for j, c in e.items()}
+                        e[k] = e.get(k, 0.0) + w
+                    ref.append(dict(e))
+                for k, o in enumerate(outs):
+                    cnt += 1
+                    if k < N - 1:
+                        continue   # readiness is C08's clause
+                    if o is None or o == 'nl':
+                        bad.append('%s(N=%d%s): output %d is %s' % (ctor, N, '' if alpha is None else ', alpha=%s' % alpha, k, 'missing' if o is None else 'not a linear form'))
+                        break
+                    if any(abs(_coef(o, j) - ref[k].get(j, 0.0)) > 1e-9 for j in range(k + 1)) or abs(o.get('1', 0.0)) > 1e-12:
+                        bad.append('%s(N=%d%s): after value %d the output is %s, the recursion from e_0 = x_0 gives %s' % (
+                            ctor, N, '' if alpha is None else ', alpha=%s' % alpha, k + 1,
+                            [round(_coef(o, j), 5) for j in range(k + 1)][-4:], [round(ref[k].get(j, 0.0), 5) for j in range(k + 1)][-4:]))
+                        break
+    R.ob('B2-ema', 'Ema:transient', not bad and cnt > 0,
+         'from the first value on e_0 = x_0, e_t = w·x_t + (1−w)·e_(t−1) (%d outputs compared coefficient-wise, default and custom alpha)' % cnt if not bad and cnt > 0
+         else ('; '.join(bad[:2]) or 'nothing analysed'), v.file)
+
+
+def convex_transient(F, R, tier):
+    """Sma, Ema (default alpha), Alma: every reported value is a convex combination (coefficients >= 0, sum 1, no constant
+    term) of the inputs so far, for Sma and Alma of the last N inputs only. Hull, monotonicity, reproduction of constants
+    and commutation with x -> a·x + b (a > 0) follow for these configurations."""
+    from .lti import transient
+    views = view_by_name(F)
+    Ns = range(1, 13) if tier == 'quick' else range(1, 41)
+    for n in ('Sma', 'Ema', 'Alma'):
+        v = views.get(n)
+        if v is None:
+            R.violation('B1-convex', n, 'not found')
+            continue
+        m = model(F, v)
+        bad = []
+        cnt = 0
+        for N in Ns:
+            args = _ctor_args(m, 'new', [N])
+            K = 2 * N + 6
+            outs, probs = transient(m, 'new', args, K)
+            if outs is None:
+                continue
+            for k, o in enumerate(outs):
+                if o is None:
+                    continue
+                cnt += 1
+                if o == 'nl':
+                    bad.append('N=%d: output %d is not a linear form of the inputs' % (N, k))
+                    break
+                cs = [_coef(o, j) for j in range(k + 1)]
+                if min(cs) < -1e-12:
+                    bad.append('N=%d: output %d has a negative weight %.6g on input %d: not monotone / can leave the hull' % (N, k, min(cs), cs.index(min(cs))))
+                    break
+                if abs(sum(cs) - 1.0) > 1e-9 or abs(o.get('1', 0.0)) > 1e-12:
+                    bad.append('N=%d: weights of output %d sum to %.9g (constant term %.3g): a constant is not reproduced' % (N, k, sum(cs), o.get('1', 0.0)))
+                    break
+                if n in ('Sma', 'Alma') and any(abs(c) > 1e-12 for c in cs[:max(0, k + 1 - N)]):
+                    bad.append('N=%d: output %d still depends on an input older than the last N' % (N, k))
+                    break
+                extra = [a for a in o if not a.startswith('u') and a != '1' and abs(o[a]) > 1e-12]
+                if extra:
+                    bad.append('N=%d: output %d depends on %s' % (N, k, extra[:2]))
+                    break
+        R.ob('B1-convex', n, not bad and cnt > 0,
+             'every reported value is a convex combination of the %s (N = %d..%d, %d outputs from the initial state)' % (
+                 'last N inputs' if n != 'Ema' else 'inputs so far', Ns[0], Ns[-1], cnt) if not bad and cnt > 0 else ('; '.join(bad[:2]) or 'nothing analysed'), v.file)
+
+
+def dc_first_output(F, R, tier):
+    """C10: the low-pass members reproduce a constant stream from their first output: the weights of every reported value
+    (from the initial state on) sum to 1 and there is no constant term."""
+    from .lti import transient
+    views = view_by_name(F)
+    for n in ('Sma', 'Ema', 'Alma', 'LaguerreFilter'):   # SuperSmoother only converges to the constant (statement)
+        v = views.get(n)
+        if v is None:
+            continue
+        m = model(F, v)
+        bad = []
+        cnt = 0
+        if n == 'LaguerreFilter':
+            cfgs = [([], [g]) for g in (0.0, 0.2, 0.5, 0.8, 0.95)]
+        else:
+            cfgs = [([N], []) for N in (range(1, 13) if tier == 'quick' else range(1, 49))]
+        for ints, floats in cfgs:
+            args = _ctor_args(m, 'new', ints, floats)
+            K = (2 * ints[0] + 8) if ints else 24
+            outs, probs = transient(m, 'new', args, K)
+            if outs is None:
+                continue
+            for k, o in enumerate(outs):
+                if o is None:
+                    continue
+                cnt += 1
+                if o == 'nl':
+                    bad.append('%s: output %d is not a linear form' % (ints or floats, k))
+                    break
+                sm = sum(c for a, c in o.items() if a.startswith('u'))
+                if abs(sm - 1.0) > 1e-9 or abs(o.get('1', 0.0)) > 1e-12:
+                    bad.append('%s: the weights of output %d sum to %.6g: a constant stream c is reported as %.6g·c' % (ints or floats, k, sm, sm))
+                    break
+        R.ob('DC-first', n, not bad and cnt > 0, 'a constant stream is reproduced from the first output on (%d outputs from the initial state)' % cnt
+             if not bad and cnt > 0 else ('; '.join(bad[:2]) or 'nothing analysed'), v.file)
